@@ -10,7 +10,8 @@ int g_last_pol_res, g_last_pol_code;
 const KSI_Rule *g_last_rules;     /* rule list of the policy evaluated last */
 _Bool g_fb_env_failed;
 char g_tmp_hash_obj[8], g_tmp_cal_obj[8], g_tmp_pub_obj[8];
-int g_tmp_frees;
+unsigned g_tmp_frees;
+KSI_DataHash *g_tmp_hash_p; KSI_CalendarHashChain *g_tmp_cal_p; KSI_PublicationsFile *g_tmp_pub_p;   /* typed aliases, set by the harness */
 
 /* ASSUMED stubs */
 void KSI_Signature_free(KSI_Signature *s) { }
